@@ -5,6 +5,7 @@ package main
 // initialisation of external packages (tables such as unicode/utf8's are package-level variables).
 
 import (
+	"math"
 	"fmt"
 	"go/types"
 
@@ -89,6 +90,17 @@ func init() {
 		"github.com/mattn/go-runewidth.CreateLUT":            iCreateLUT,
 		"(*github.com/mattn/go-runewidth.Condition).CreateLUT": iCreateLUT,
 		"strconv.FormatFloat":                  iFormatFloat,
+		"strconv.AppendFloat":                  iAppendFloat,
+		"math.Abs":                             iMathFloat1,
+		"math.Floor":                           iMathFloat1,
+		"math.Ceil":                            iMathFloat1,
+		"math.Trunc":                           iMathFloat1,
+		"math.IsNaN":                           iMathIsNaN,
+		"math.IsInf":                           iMathIsInf,
+		"math.Inf":                             iMathInf,
+		"math.NaN":                             iMathNaN,
+		"math.Signbit":                         iMathSignbit,
+		"math.Copysign":                        iMathCopysign,
 		"strconv.Quote":                        iStrconvQuote,
 		"sort.Slice":                           iSortSlice,
 		"sort.SliceStable":                     iSortSlice,
@@ -847,6 +859,66 @@ func iFormatFloat(in *Interp, fn *ssa.Function, a []Value) Value {
 	prec := in.intOf(a[2], "FormatFloat prec")
 	bits := in.intOf(a[3], "FormatFloat bitSize")
 	return in.mkStr(strconvFormatFloat(f.data.(float64), fmtc, prec, bits))
+}
+
+func (in *Interp) floatOf(v Value, what string) float64 {
+	f, ok := v.(*OpaqueV)
+	if !ok || f.kind != "float" || f.data == nil {
+		in.unsupported(what + " of a non-concrete float")
+	}
+	return f.data.(float64)
+}
+
+func iAppendFloat(in *Interp, fn *ssa.Function, a []Value) Value {
+	f := in.floatOf(a[1], "strconv.AppendFloat")
+	fmtc := byte(in.intOf(a[2], "AppendFloat fmt"))
+	prec := in.intOf(a[3], "AppendFloat prec")
+	bits := in.intOf(a[4], "AppendFloat bitSize")
+	txt := in.mkStr(strconvFormatFloat(f, fmtc, prec, bits))
+	add := make([]Value, len(txt.b))
+	for i, b := range txt.b {
+		add[i] = b
+	}
+	return in.appendSlice(a[0].(SliceV), add, types.Typ[types.Uint8])
+}
+
+func iMathFloat1(in *Interp, fn *ssa.Function, a []Value) Value {
+	f := in.floatOf(a[0], "math."+fn.Name())
+	switch fn.Name() {
+	case "Abs":
+		f = math.Abs(f)
+	case "Floor":
+		f = math.Floor(f)
+	case "Ceil":
+		f = math.Ceil(f)
+	case "Trunc":
+		f = math.Trunc(f)
+	}
+	return &OpaqueV{kind: "float", data: f}
+}
+
+func iMathIsNaN(in *Interp, fn *ssa.Function, a []Value) Value {
+	return in.tt.Bool(math.IsNaN(in.floatOf(a[0], "math.IsNaN")))
+}
+
+func iMathIsInf(in *Interp, fn *ssa.Function, a []Value) Value {
+	return in.tt.Bool(math.IsInf(in.floatOf(a[0], "math.IsInf"), in.intOf(a[1], "math.IsInf sign")))
+}
+
+func iMathInf(in *Interp, fn *ssa.Function, a []Value) Value {
+	return &OpaqueV{kind: "float", data: math.Inf(in.intOf(a[0], "math.Inf sign"))}
+}
+
+func iMathNaN(in *Interp, fn *ssa.Function, a []Value) Value {
+	return &OpaqueV{kind: "float", data: math.NaN()}
+}
+
+func iMathSignbit(in *Interp, fn *ssa.Function, a []Value) Value {
+	return in.tt.Bool(math.Signbit(in.floatOf(a[0], "math.Signbit")))
+}
+
+func iMathCopysign(in *Interp, fn *ssa.Function, a []Value) Value {
+	return &OpaqueV{kind: "float", data: math.Copysign(in.floatOf(a[0], "math.Copysign"), in.floatOf(a[1], "math.Copysign"))}
 }
 
 func iStrconvQuote(in *Interp, fn *ssa.Function, a []Value) Value {
